@@ -210,6 +210,10 @@ def run_tlc(module, cfg, env=None, workers=16, timeout=600, mode="bfs", extra=()
         pass
     if m:
         r.generated, r.distinct = int(m.group(1)), int(m.group(2))
+    elif r.truncated:
+        # stopped early: the last progress line says how far the run got
+        for pm in re.finditer(r"Progress\(\d+\) at [^:]*:[^:]*:[^:]*: ([\d,]+) states generated[^,]*, ([\d,]+) distinct states found", out):
+            r.generated, r.distinct = int(pm.group(1).replace(",", "")), int(pm.group(2).replace(",", ""))
     m = _RE_DEPTH.search(out)
     if m:
         r.depth = int(m.group(1))
